@@ -13,6 +13,7 @@ CHECKS = {
  "C11": (True, "Bounded model checking of for/tablerow/cycle/break/continue through the real pipeline: offset, limit and cols range over all 64-bit integers as solver variables, collection length and representation are forked, and output including every forloop field is compared with a reference select (reverse, skip, take).", "DESIGN.md §4 C11"),
  "C12": (True, "Bounded model checking of assign/capture visibility and loop-variable restoration: payloads (strings with symbolic bytes, integers, booleans) are solver variables, program shapes are forked, probes after every construct are compared with the expected text, and capture(F);print is compared with F on a fragment corpus.", "DESIGN.md §4 C12"),
  "C13": (True, "Bounded model checking of whitespace control at token level through the real parseTokens, compileNode, Render and trimWriter: presence of every trim token is a solver Boolean, text pieces and values have symbolic bytes, and the output is compared with (A) whitespace-erasure equality, (B) a reference trimmer when every hyphen faces literal text, (C) identity without hyphens.", "DESIGN.md §4 C13"),
+ "C05": (True, "Bounded model checking of the tokenizer and the pass-through paths on symbolic template bytes: the real Scan runs on every ASCII string up to the bound (and on longer skeletons with symbolic bytes inside and between constructs) with an arbitrary 64-bit starting line; the real compiled regexp is applied through a byte-cell abstraction derived from its program (exact match positions incl. leftmost-first priority); partition, line, hyphen and no-opener laws are asserted; plain text, raw and comment bodies and string values (any bytes) are rendered through the whole pipeline and compared byte for byte.", "DESIGN.md §4 C05"),
  "C06": (True, "Bounded model checking of the block parser: the real parseTokens with the grammar built by the real AddStandardTags runs on every token sequence up to N over a 23-symbol alphabet (symbols are solver variables), and acceptance, the absence of a tree on rejection, and the shape of the tree are compared with a stack acceptor written from the statement; accepted trees are compiled.", "DESIGN.md §4 C06"),
  "C07": (True, "Bounded model checking of error location: tokens carry arbitrary (monotone) 64-bit line numbers as solver variables, path present/absent and nesting shapes are forked, and for each kind of render-time and parse-time failure the reported LineNumber, Path, message and Cause are asserted against the innermost failing token.", "DESIGN.md §4 C07"),
  "C08": (True, "Bounded model checking of expression evaluation: array index over all 64-bit integers against a reference (negative from the end, out of range nil), map/property/size lookup with solver-chosen keys and payloads, strict mode, integer and string literals with symbolic bytes through the real ragel lexer and goyacc parser, pipelines against their assign-decomposed form, and whitespace (incl. newlines) inserted at every part boundary of corpus tags/objects.", "DESIGN.md §4 C08"),
@@ -21,6 +22,7 @@ CHECKS = {
  "C17": (True, "Bounded model checking of the numeric filters with operands as SMT floating-point variables (all finite float64) and integers of every width: plus/minus/times against the IEEE operation, divided_by dispatch over every divisor kind incl. zero, ceil/floor bracketing and integrality, round half up, abs; modulo and string operands on a forked operand set.", "DESIGN.md §4 C17"),
  "C18": (True, "Bounded model checking of representation independence: each logical value (integer, float, string, array, map; payloads are solver variables) is rendered in the canonical Go representation and in another one (every integer width, float32, typed slice, fixed array, typed map, ordered YAML map, []byte, pointer, Drop at the top or nested) through a corpus of templates covering printing, comparison, arithmetic, indexing, loops and modifiers, filters and case; outputs and error-ness must agree.", "DESIGN.md §4 C18"),
  "C14": (True, "Bounded model checking of include over a stubbed file system: for each includer location, argument form (literal, variable, filtered expression, sub-directory, parent directory) and file state (on disk, cache only, both with different content, missing, unreadable) the output is compared with rendering the chosen content directly with the includer's current variables (payloads are solver variables); non-string arguments and failing included templates must fail; nested includes resolve relative to the parsed path. Natively replayed on real files in a scratch directory.", "DESIGN.md §4 C14"),
+ "C19": (True, "Bounded model checking of custom delimiters: the tokenizer laws of C05 (partition, lines, delimiter typing, hyphen detection at len(left) / len-len(right)-1) on symbolic bytes for delimiter quadruples of lengths 1..4; corpus templates respelled with 7 quadruples render identically to the default spelling on a default engine (outputs, error-ness, error lines); every subset of positions passed as \"\" selects the default; default delimiter strings are plain text for a custom engine.", "DESIGN.md §4 C19"),
  "C20": (True, "Bounded model checking over fault schedules: the index k of the failing Write and the number of bytes it accepts are solver variables (every k up to the number of writes of the fault-free render, computed on the same path), for a template corpus covering every tag; FRender/ParseAndFRender must return a non-nil error without panicking, the accepted bytes must be a prefix of the fault-free output, and no Write may follow the failing one.", "DESIGN.md §4 C20"),
  "C01": (True, "Bounded model checking with 'no uncaught Go panic leaves the harness' as an implicit assertion on every path: every standard filter x a 20-value boundary receiver universe x 0-2 arguments (integer arguments of numeric-parameter filters are unconstrained 64-bit solver variables), filter chains, the ragel lexer and goyacc parser on arbitrary ASCII bytes, numeric literals up to 20 digits, every operator/lookup form on every ordered pair of 14 value kinds with symbolic payloads, ranges with arbitrary endpoints, every tag with hostile bindings (forloop spoofing, modifiers/include/case of every kind), malformed sources; loops are bounded by an unwinding limit that makes a run inconclusive, never a pass.", "DESIGN.md §4 C01"),
  "C02": (True, "Bounded model checking with the environment made symbolic: the iteration order of the map under test is an arbitrary permutation chosen afresh at every range/MapKeys (a forked environment choice), payloads are solver variables, and one path renders repeatedly and compares outputs (self-composition), for every template that consumes a map; all entry points (Render, RenderString, FRender, ParseAndRender, ParseAndRenderString, ParseAndFRender), a re-parse and a fresh engine are compared on the corpus incl. failing templates. Natively the render is repeated 48 times.", "DESIGN.md §4 C02"),
